@@ -881,6 +881,72 @@ Section Share.
       intros x [<-|[<-|[]]]; [eapply allok_mono; [exact Hbmo|exact Haal]|exact Hbal].
   Qed.
 
+  (* ---- values whose node has exactly one child node ---- *)
+  Lemma single_Q v x c mo l (flds : json -> list (pstr * json)) tag k slot :
+    Objs v -> Q x -> (size x < size v)%nat -> (need x < need v)%nat ->
+    In (l, tag) frag_loaders -> kind_of_class tag = Some k ->
+    (forall jx, dget (s "__id__") (flds jx) = None) ->
+    (forall st, get_state D v st = do (jx, st1) <- get_state D x st; Ok (node_state c mo l (flds jx) (pid v), st1)) ->
+    (forall rec sl m jx, build E rec sl [] tag k m (node_state c mo l (flds jx) (pid v))
+                         = do (h, m0) <- node_init sl k tag [] true m (node_state c mo l (flds jx) (pid v)) JNull;
+                           do (n, m1) <- rec [] (SOne slot) m0 jx; Ok (Node h [n], m1)) ->
+    (forall R cf sl n, construct_val C files R cf n = Ok x ->
+       cbody C files (mkh sl k tag (pid v) c mo JNull) [n] (construct_val C files R cf) = Ok v) ->
+    Q v.
+  Proof.
+    intros Hv Hx Hsz Hnd Hl Hk Hf Hget Hbuild Hcons st j st' H Hb. rewrite Hget in H.
+    destruct (get_state D x st) as [[jx st1]|] eqn:Ex; [|discriminate]. cbn [bind] in H. injection H as <- <-.
+    destruct (Hx _ _ _ Ex Hb) as [Hlate [Hnext HQx]]. split; [exact Hlate|]. split; [exact Hnext|].
+    pose proof (Oid _ Hv) as Hid.
+    apply (Q_wrap v st st1 c mo l (flds jx) tag k); try assumption; try lia; [apply Hf|].
+    intros fuel m sl Hn Hm Hmem. rewrite Hbuild, init_eq by (try apply Hf; lia). cbn [bind].
+    destruct (HQx fuel (key (pid v) :: m) (SOne slot)) as [n [m1 [Hg [Hsl [Hnl [Hmo [Hgr [Hlt [Hsp Hal]]]]]]]]]; [lia|apply memo_lt_cons; [lia|exact Hm]|].
+    rewrite Hg. cbn [bind]. eexists. eexists. split; [reflexivity|].
+    set (hd := mkh sl k tag (pid v) c mo JNull).
+    assert (Hspn : SpecN (Node hd [n]) v m).
+    { intros R Hs HmR Hg0 cf Hcf. destruct cf as [|cf]; [pose proof (need_pos v); lia|]. cbn [construct_val]. apply Hcons.
+      apply (Hsp R); [eapply sub_child; [exact Hs|left; reflexivity]| | |lia].
+      - intros h Hh. cbn [memo_mem] in Hh. apply orb_prop in Hh. destruct Hh as [Hh|Hh]; [|auto].
+        apply hkey_eqb_eq in Hh. subst h. eapply ids_sub; [exact Hs|]. cbn [ids]. unfold own_ids, hd. cbn [mkh h_id]. left. reflexivity.
+      - eapply HG_mono; [|exact Hg0]. lia. }
+    unfold Res. cbn [node_slot notleaf]. repeat split.
+    - eapply mono_trans; [apply mono_cons|exact Hmo].
+    - intros h Hh. cbn [flat_map ids]. rewrite !app_nil_r. destruct (Hgr h Hh) as [H|H].
+      + cbn [memo_mem] in H. apply orb_prop in H. destruct H as [H|H]; [|left; exact H].
+        apply hkey_eqb_eq in H. subst h. right. apply in_or_app. left. left. reflexivity.
+      + right. apply in_or_app. right. cbn [flat_map] in H. rewrite app_nil_r in H. exact H.
+    - exact Hlt.
+    - apply Spec_of_SpecN. exact Hspn.
+    - apply (allok_node hd [n] v m); [reflexivity|left; exact Hv|exact Hspn|eapply mono_trans; [apply mono_cons|exact Hmo]|].
+      intros y [<-|[]]. exact Hal.
+  Qed.
+
+  (* attrgetter / itemgetter / methodcaller: __reduce__()[1] is a non-empty tuple the constructor accepts *)
+  Definition opfunc_attrs_ok (c : pstr) (attrs : pval) : Prop :=
+    match attrs with
+    | PSeq _ _ _ _ _ (PScalar _ (SStr _) :: _) => True
+    | PSeq _ _ _ _ _ (_ :: _) => c = s "itemgetter"
+    | _ => False
+    end.
+
+  Lemma opfunc_Q id c attrs : Objs (POpFunc id c attrs) -> resolvable F (s "operator") c = true ->
+    opfunc_attrs_ok c attrs -> Q attrs -> Q (POpFunc id c attrs).
+  Proof.
+    intros Hv Hr Hok Ha.
+    apply (single_Q (POpFunc id c attrs) attrs c (s "operator") (CodecDump.K "OperatorFuncNode") (fun jx => [(CodecDump.K "attrs", jx)])
+             (s "_general.OperatorFuncNode") KOperatorFunc (GetTree.K "attrs")); try assumption; try reflexivity;
+      try (cbn [size need]; lia); [cbn; tauto|].
+    intros R cf sl n Hn. cbn [pid]. unfold cbody, mkh. cbn [h_kind]. fold (mkh sl KOperatorFunc (s "_general.OperatorFuncNode") id c (s "operator") JNull).
+    unfold resolvable in Hr. apply andb_prop in Hr. destruct Hr as [Hmiss Hne]. apply negb_true_iff in Hmiss.
+    erewrite gt_ok; [|reflexivity|reflexivity|apply lit_ne; discriminate| |destruct HC as [_ ->]; exact Hmiss].
+    2:{ destruct c; [discriminate Hne|discriminate]. }
+    cbn [bind]. rewrite Hn. cbn [bind]. unfold opfunc_attrs_ok in Hok.
+    destruct attrs; try contradiction. cbn [as_items bind]. destruct items as [|x items]; [contradiction|].
+    repeat match goal with |- context [nid ?h] =>
+      replace (nid h) with id by (unfold nid, key; cbn [h_id pid]; symmetry; apply key_div) end.
+    destruct x; try (subst c; reflexivity). destruct sc; try (subst c; reflexivity). reflexivity.
+  Qed.
+
   (* ---- the proved fragment, with the objects of the value registered in Objs ---- *)
   Fixpoint vok (v : pval) {struct v} : Prop :=
     Objs v /\
@@ -897,6 +963,7 @@ Section Share.
         /\ (fix vals (l : list (dkey * pval)) : Prop := match l with [] => True | kv :: l' => vok (snd kv) /\ vals l' end) l
     | PSlice _ a b c => bound_supported a = true /\ bound_supported b = true /\ bound_supported c = true
     | PFunc _ mo c | PType _ mo c => resolvable F mo c = true
+    | POpFunc _ c a => resolvable F (s "operator") c = true /\ opfunc_attrs_ok c a /\ vok a
     | _ => False
     end.
 
@@ -931,7 +998,7 @@ Section Share.
     - intros; cbn [vok] in *; tauto.
     - intros; cbn [vok] in *; tauto.
     - intros; cbn [vok] in *; tauto.
-    - intros; cbn [vok] in *; tauto.
+    - intros id c a IHa [Ho [Hr [Hok Hva]]]. apply opfunc_Q; try assumption. apply IHa. exact Hva.
     - intros; cbn [vok] in *; tauto.
     - intros; cbn [vok] in *; tauto.
   Qed.
